@@ -264,6 +264,7 @@ fn intact_params() -> ProgParams {
 
 fn run(ctx: &Ctx) -> Report {
     let mut rep = Report::new(RULE);
+    rep.assume(&prog::budget_note());
     rep.assume("usable stream bytes of a prefix are computed from the model layout (record sizes of FORMAT.md) and the chunk geometry");
     if SCALED {
         explore(&mut rep, ctx, "intact", ctx.n(3_000, 100_000), || prog::program(intact_params()).prop_map(|program| Case { program, cuts: false, only: None }), oracle);
